@@ -1,5 +1,6 @@
 import MorfuseModel.Archive.Value
 import MorfuseModel.Archive.Dict
+import MorfuseModel.Archive.Tables
 import Driver.Util
 /-! driver for the Archive model (properties C10, C11).
 
@@ -288,6 +289,77 @@ def step (st : St) (t : List String) : St × String :=
     | none => (st, "bad-op")
   | _ => (st, "bad-op")
 
-def main : IO Unit := Driver.runLoop step ({} : St)
+/-! ### `Listener::Archive` with tables: `lisv <k> <N> <view> ; <view> ; <view>`
+(the view of the three `con::set<const_str, ConList>` tables as the harness's `lis` printed it:
+`-` | `<tableLength> <threshold> <tableLengthIndex> <count> (<key-hex> <n> <targets…>)*`).
+Answer: the archive bytes ` | ` the tables the data-directed reader returns, entries sorted by key. -/
+
+partial def parseEntries : Nat → List String → Option (List ConEntry × List String)
+  | 0, r => some ([], r)
+  | n + 1, k :: c :: r => do
+    let kb ← bytes? k
+    let c ← c.toNat?
+    if r.length < c then none else
+    let tg ← (r.take c).mapM String.toNat?
+    let (es, r') ← parseEntries n (r.drop c)
+    some (((if k = "-" then none else some kb), tg) :: es, r')
+  | _, _ => none
+
+def parseSet (t : List String) : Option (Option ConSet) :=
+  match t with
+  | ["-"] => some none
+  | tl :: th :: tli :: cnt :: r => do
+    let (es, r') ← parseEntries (← cnt.toNat?) r
+    if !r'.isEmpty then none else
+    some (some { tableLength := ← tl.toNat?, threshold := ← th.toNat?, tableLengthIndex := ← tli.toNat?, entries := es })
+  | _ => none
+
+def splitOn (t : List String) (sep : String) : List (List String) :=
+  let rec go : List String → List String → List (List String) → List (List String)
+    | [], cur, acc => (cur.reverse :: acc).reverse
+    | x :: xs, cur, acc => if x = sep then go xs [] (cur.reverse :: acc) else go xs (x :: cur) acc
+  go t [] []
+
+def showSet : Option ConSet → String
+  | none => "-"
+  | some s =>
+    let es := (s.entries.toArray.qsort fun a b => toHex (a.1.getD []) < toHex (b.1.getD [])).toList
+    " ".intercalate ([toString s.tableLength, toString s.threshold, toString s.tableLengthIndex, toString s.entries.length]
+      ++ es.flatMap fun e => [match e.1 with | none => "-" | some k => toHex k, toString e.2.length] ++ e.2.map toString)
+
+def lisInfo : Info := { header := [77, 70, 85, 83], name := [108, 105, 115], version := 1 }
+def lisClass : Bytes := [76, 105, 115, 116, 101, 110, 101, 114]
+
+def lisStep (t : List String) : String :=
+  match t with
+  | k :: n :: rest =>
+    match k.toNat?, n.toNat?, (splitOn rest ";").mapM parseSet with
+    | some k, some n, some [a, b, c] =>
+      if k > n then "bad-op" else
+      let st : LTables := { notify := a, waitFor := b, endl := c }
+      let tgt (i : Nat) : Item := .object .into i lisClass [.prim .u8 0]
+      let pre := (List.range k).map fun i => tgt (i + 1)
+      let post := (List.range (n - k)).map fun i => tgt (k + i + 1)
+      let w := pre ++ [.object .into (n + 1) lisClass (listenerCalls st)] ++ post
+      let bytes := encode lisInfo w
+      let T := (encItems [] w).1
+      let t1 := (addUnique (encItems [] pre).1 (n + 1)).1
+      let body := (encItems t1 (listenerCalls st)).2
+      let r := readListener cfg ⟨body, 0, true, List.replicate T.length 0, []⟩
+      toHex bytes ++ " | " ++ (match r with
+        | .ok raw s =>
+          if !s.rest.isEmpty then "err trailing-bytes" else
+          let f := fixTables T raw
+          showSet f.notify ++ " ; " ++ showSet f.waitFor ++ " ; " ++ showSet f.endl
+        | .err e _ => "err " ++ errName e)
+    | _, _, _ => "bad-op"
+  | _ => "bad-op"
+
+def step' (st : St) (t : List String) : St × String :=
+  match t with
+  | "lisv" :: r => (st, lisStep r)
+  | _ => step st t
+
+def main : IO Unit := Driver.runLoop step' ({} : St)
 
 end Driver.Archive
